@@ -16,6 +16,7 @@
 EXTENDS AdvanceMigration, TLC, Json
 
 CONSTANTS SimMode, Emit,
+          EmitLevel,   \* breadth-first: only edges leaving states at most this deep are printed
           HSet,        \* heights events use (targets, mined heights, truncation heights, reported tips)
           FarEst,      \* an estimated target far enough ahead to make a due step overdue
           SchedSet, ExpirySet, BndSet, PctSet, TolSet, CvSet, InitSt, KindSet,
@@ -189,9 +190,10 @@ RndSub(S) == {x \in S : RandomElement({TRUE, FALSE})}
 StW  == << "A", "S", "S", "S", "P", "P", "P", "B", "B", "M", "M" >>
 UkW  == << "none", "none", "none", "none", "spent", "inval", "anchor", "inherited" >>
 AnsW == << "sat", "sat", "sat", "sat", "sat", "notyet", "spent", "inval", "anchor", "expired" >>
-Ops  == << "advance", "advance", "advance", "advance", "advance", "advance", "advance", "mark_broadcast",
-           "mark_broadcast", "mark_mined", "prove", "prove", "report", "sign", "truncate", "record", "record",
-           "supersede", "cancel", "recompute" >>
+Ops  == << "advance", "advance", "advance", "advance", "advance", "advance", "advance", "advance", "advance",
+           "advance", "advance", "advance", "mark_broadcast", "mark_broadcast", "mark_broadcast", "mark_broadcast",
+           "mark_mined", "mark_mined", "mark_mined", "prove", "prove", "prove", "prove", "report", "sign",
+           "truncate", "record", "record", "recompute", "policy" >>
 HAll == HSet \cup {HMin - 1}
 
 \* (a parameter keeps TLC from evaluating the draw once as a constant definition)
@@ -201,9 +203,9 @@ RawDraw(salt) ==
      estk |-> RandomElement(1..6), asok |-> RandomElement(1..5),
      ans |-> [i \in Tx |-> Pick(AnsW)], mnd |-> [i \in Tx |-> RandomElement(1..6)], sel |-> RndSub(Tx),
      \* raw material of a reset
-     pol |-> RandomElement(1..8), pst |-> RandomElement({"failed", "superseded", "cancelled"}),
+     pol |-> RandomElement(1..12), pst |-> RandomElement({"failed", "superseded", "cancelled"}),
      pct |-> RandomElement(PctSet), tol |-> RandomElement(TolSet), cv |-> [i \in Tx |-> RandomElement(CvSet)],
-     rows |-> [i \in Tx |-> [kind |-> RandomElement(KindSet), deps |-> RndSub(1..(i - 1)), st |-> Pick(StW),
+     rows |-> [i \in Tx |-> [kind |-> RandomElement(KindSet), deps |-> {d \in 1..(i - 1) : RandomElement(1..3) = 1}, st |-> Pick(StW),
                              mh |-> RandomElement(HSet), sched |-> RandomElement(SchedSet),
                              expiry |-> RandomElement(ExpirySet), bnd |-> RandomElement(BndSet),
                              uk |-> Pick(UkW), uh |-> RandomElement(HAll),
@@ -237,7 +239,8 @@ Canon(s, raw) ==
         P   == {j \in Tx : s.tx[j].st = "P"}
         B   == {j \in Tx : s.tx[j].st = "B"}
         S   == {j \in Tx : s.tx[j].st = "S"}
-    IN  IF raw.rst = 1 THEN [Ev("reset", 1, NoH) EXCEPT !.op = "reset"]
+    IN  IF raw.rst = 1 \/ (IsTerminal(s) /\ raw.estk <= 3 /\ op # "truncate")     \* do not linger in terminal states
+        THEN [Ev("reset", 1, NoH) EXCEPT !.op = "reset"]
         ELSE IF op = "advance" THEN EvAdvance(ts, est, aso, raw.ans, mnd)
         ELSE IF op = "record" THEN EvRecord(ts, est, aso, raw.ans, raw.sel)
         ELSE IF op = "mark_broadcast" /\ P # {} THEN Ev(op, Nth(P, raw.i), NoH)
@@ -246,7 +249,7 @@ Canon(s, raw) ==
         ELSE IF op = "report" THEN Ev(op, raw.i, raw.ts)
         ELSE IF op = "sign" THEN Ev(op, raw.i, NoH)
         ELSE IF op = "truncate" THEN Ev(op, 1, raw.h)
-        ELSE IF op \in {"supersede", "cancel"} THEN Ev(op, 1, NoH)
+        ELSE IF op = "policy" /\ raw.asok = 1 THEN Ev(IF raw.i % 2 = 0 THEN "supersede" ELSE "cancel", 1, NoH)
         ELSE Ev("recompute", 1, NoH)
 
 ----------------------------------------------------------------------------------------------
@@ -258,7 +261,7 @@ DoStep(ev) ==
     LET r == Apply(ms, ev)
     IN  /\ ms' = r.ms
         /\ bad' = StepViolations(ms, ev, r)
-        /\ (Emit /\ ev.op # "reset") => PrintT(<< "EDGE", ToJson(EdgeJ(ms, ev, r)) >>)
+        /\ (Emit /\ ev.op # "reset" /\ TLCGet("level") <= EmitLevel) => PrintT(<< "EDGE", ToJson(EdgeJ(ms, ev, r)) >>)
 
 Next == IF SimMode THEN DoStep(Canon(ms, env) @@ [newms |-> CanonState(env)]) /\ env' = RawDraw(ms')
         ELSE \E ev \in BfsEvents(ms) : DoStep(ev) /\ env' = env
